@@ -8,7 +8,7 @@ from pyvc import smt
 from pyvc.spec import LoopSpec, contract, forall
 from pyvc.values import BOOL, FRAG, GAP, INT, NONE, ROW, STR, TList, TOpt, TRef, TSet
 
-from .scaffold import fresh_list, same_rows, scaffold_fields
+from .scaffold import fresh_list, same_repr, same_rows, scaffold_fields
 
 M = "tola.assembly.overlap_result.OverlapResult"
 OR = TRef("OverlapResult")
@@ -44,6 +44,7 @@ class _:
             ("bait", s.bait.z == o.bait.z),
             ("rows-fresh", fresh_list(o, n, s.rows)),
             ("rows-copied", same_rows(s.rows, o.rows)),
+            ("rows-copied-repr", z3.If(o.rows.len == 0, s.rows.len == 0, same_repr(s.rows, o.rows))),
             ("meta", z3.And(s.tag.z == o.tag.z, s.haplotype.z == o.haplotype.z, s.rank.z == o.rank.z,
                             s.original_name.z == o.original_name.z, s.original_tags.is_none)),
             ("alloc-grows", n.alloc >= o.alloc),
